@@ -138,7 +138,7 @@ func (m *FlowMon) OnEvent(c *eng.Ctx, ms eng.MState, ev *eng.Event) eng.MState {
 				chk("C03.R1", "child-run", node == m.startTerm(), "the first node run is "+node.Pretty()+", not the flow's start node")
 			} else {
 				want := eng.Lookup(eng.Lookup(T, s.prevNode), s.prevAct)
-				chk("C03.R2", "child-run", node == want, "the next node run is "+node.Pretty()+"; the table prescribes "+want.Pretty())
+				chk("C03.R2,C10.R10", "child-run", node == want, "the next node run is "+node.Pretty()+"; the table prescribes "+want.Pretty())
 				chk("C03.R2", "child-run", s.sawLookup, "the successor comes from a row of the connection table that was read before the previous node ran: a connection the node makes while it runs is missed")
 				chk("C04.R4", "child-run", knownNil(c, s.prevErr), "a further node is run although the previous node's run is not known to have succeeded")
 			}
@@ -392,7 +392,7 @@ func (m *FlowMon) onReturn(c *eng.Ctx, s flowState, ev *eng.Event, T *eng.Term) 
 		case s.cutAny:
 			found := false
 			for _, l := range err.WrapLeaves() {
-				if l.K == eng.KEv && c.E.SiteClass[l.S] == "ctx.Err" {
+				if l.K == eng.KEv && c.E.SiteClass[l.S] == "ctx.Err" && c.IsNil(l) != eng.TriTrue {
 					found = true
 				}
 			}
@@ -747,7 +747,7 @@ func (m *flowRunMon) OnEvent(c *eng.Ctx, ms eng.MState, ev *eng.Event) eng.MStat
 	if ev.Kind == "call" && ev.Class == "ChildRun" && len(ev.Args) == 3 {
 		fn := ev.Fn
 		ok := ev.Args[0] == eng.Param(1, fn.Params[1].Name()) && unbox(ev.Args[1]) == eng.Param(0, fn.Params[0].Name()) && ev.Args[2] == eng.Param(2, fn.Params[2].Name())
-		m.col.Check("C10.R7,C02.R7", "Flow.Run:run-call", ok, ev.Pos, "Flow.Run must run the flow itself through Run with the caller's context and store, got ("+prettyArgs(ev.Args)+")", pathIf(!ok, c))
+		m.col.Check("C10.R7,C02.R7,C05.R5", "Flow.Run:run-call", ok, ev.Pos, "Flow.Run must run the flow itself through Run with the caller's context and store, got ("+prettyArgs(ev.Args)+")", pathIf(!ok, c))
 	}
 	return ms
 }
